@@ -836,8 +836,9 @@ func (s *SecureChannel) scheduleRenewal(instance *channelInstance) {
 	// https://reference.opcfoundation.org/v104/Core/docs/Part4/5.5.2/#5.5.2.1
 	// Clients should request a new SecurityToken after 75 % of its lifetime has elapsed. This should ensure that
 	// clients will receive the new SecurityToken before the old one actually expire
-	const renewAfter = 0.75
-	when := time.Second * time.Duration(instance.revisedLifetime.Seconds()*renewAfter)
+	// Computed on the Duration itself: going through whole seconds truncates
+	// short lifetimes (e.g. 1s -> renew after 0s, 2.5s -> renew after 1s).
+	when := instance.revisedLifetime * 3 / 4
 
 	debug.Printf("uasc %d: security token is refreshed at %s (%s). channelID=%d tokenID=%d", s.c.ID(), time.Now().UTC().Add(when).Format(time.RFC3339), when, instance.secureChannelID, instance.securityTokenID)
 
@@ -868,8 +869,9 @@ func (s *SecureChannel) renew(instance *channelInstance) error {
 func (s *SecureChannel) scheduleExpiration(instance *channelInstance) {
 	// https://reference.opcfoundation.org/v104/Core/docs/Part4/5.5.2/#5.5.2.1
 	// Clients should accept Messages secured by an expired SecurityToken for up to 25 % of the token lifetime.
-	const expireAfter = 1.25
-	when := instance.createdAt.Add(time.Second * time.Duration(instance.revisedLifetime.Seconds()*expireAfter))
+	// Computed on the Duration itself: going through whole seconds truncates
+	// and can drop a short-lived token before its lifetime has ended.
+	when := instance.createdAt.Add(instance.revisedLifetime + instance.revisedLifetime/4)
 
 	debug.Printf("uasc %d: security token expires at %s. channelID=%d tokenID=%d", s.c.ID(), when.UTC().Format(time.RFC3339), instance.secureChannelID, instance.securityTokenID)
 
